@@ -26,7 +26,7 @@ def stencil_table(chk):
     return tab
 
 
-def classify_steps(time_ms, signal, out, w, order, n):
+def classify_steps(time_ms, signal, out, w, order, n, rel=1e-9):
     """for each step ii: does the increment equal the trapezoid ('T'), the stencil ('S'), both
     ('B') or neither ('N')?  exact candidates from integer inputs via Fractions."""
     m = order - n
@@ -40,7 +40,7 @@ def classify_steps(time_ms, signal, out, w, order, n):
             sten = sum(w[j] * signal[ii - m + j] for j in range(order)) * dt
         inc = out[ii] - out[ii - 1]
         scale = max(abs(float(trap)), abs(float(sten)) if sten is not None else 0.0, abs(out[ii]), 1e-12)
-        tol = 1e-9 * scale
+        tol = rel * scale
         isT = abs(inc - float(trap)) <= tol
         isS = sten is not None and abs(inc - float(sten)) <= tol
         obs.append("B" if (isT and isS) else "T" if isT else "S" if isS else "N")
@@ -217,9 +217,14 @@ def run(tier):
                     tms.append(tms[-1] + x)
                 sig = [rng.randint(-9, 9) for _ in tms]
                 start = float(rng.randint(-4, 4))
-                out = integrate(np.array(tms, dtype="float64") / 1000.0, np.array(sig, dtype="float64"), order, n, start)
+                # the origin of the time axis is arbitrary (seconds since the start of the record, of the deployment, of an epoch): the
+                # time stamps of a record far from 0 carry round-off of a few ulp, which the comparison allows for
+                origin = float(rng.choice([0, 0, 0, 2 ** 24, 2 ** 27]))
+                tarr = origin + np.array(tms, dtype="float64") / 1000.0
+                out = integrate(tarr, np.array(sig, dtype="float64"), order, n, start)
                 evals += 1
-                obs = classify_steps(tms, sig, out, tab[(order, n)], order, n)
+                rel = 1e-9 + 16.0 * float(np.spacing(tarr[-1])) / (min(d) / 1000.0)
+                obs = classify_steps(tms, sig, out, tab[(order, n)], order, n, rel=rel)
                 rec = {"id": j, "order": order, "n": n, "d": d, "obs": obs, "start": 1 if out[0] == start else 0,
                        "must": 1 if (order, n) == (4, 1) else 0}
                 recs[j] = (rec, sig, start)
